@@ -44,6 +44,26 @@ CHECKS = {
    technique="runtime monitoring: Go race detector + runtime concurrent-map detector under yield-point stress (hook H2) + porcupine linearizability check of recorded symbol-table histories + functional oracle on every concurrent evaluation",
    text="Race-built workers run 2–16 goroutines evaluating symbol-interning / symbol-printing programs in separate scopes, fresh start-ups under GOMAXPROCS 1/2/4/16 and the real http module under concurrent clients; any race report with a /repo frame is a violation. Plain workers repeat the scope workload with yield points (a concurrent map fault kills the worker = violation) and record GetSymHash/SymHash2Str histories checked per key by porcupine; every evaluation's and request's result is also checked.",
    note="Trusted: Go's race detector (happens-before, executed paths only), porcupine v1.3.0, the sequential model of the intern table. Schedules are sampled."),
+ "C07": dict(level="fault_enumeration", design="§3 C07",
+   technique="runtime monitoring: exhaustive fault placement over construct templates with a temporal monitor on the stdout marker trace, outcome check and residue scan of live values",
+   text="For every template of a catalogue covering every syntactic position named by the statement (≈150 templates quick, ≈750 with one level of nesting in thorough) a raise (ValueErr or host ZeroDivisionErr) is injected at every hole, under no handler, try and a thoughtful chain; the real run's marker trace must show nothing after the raise marker except earlier-registered defers, the delivered outcome must be that error, and a walker must find no error object stored in any reachable value. Exhaustive over the catalogue.",
+   note="Trusted: the template catalogue (positions the generators do not place a fault in are not observed). Marker order before the raise is not judged (C08)."),
+ "C08": dict(level="exploration", design="§3 C08",
+   technique="runtime monitoring: trace monitor (marker order, Eval event trace through hook H1) + repeated-execution differential within and across processes",
+   text="Order templates print markers numbered in the documented evaluation order for every construct of the statement (kwargs 2–8 on four callee kinds, defaults, unpacks, pairs, bounds, embedded parts, stdin/iterator consumption); reproducibility programs rich in hash-ordered data and corpus programs are run 24× in-process (64× thorough) and in 3 fresh processes; observations and the Eval event sequence must be identical and duplicates must resolve first-occurrence-wins.",
+   note="Trusted: Go's per-iteration map randomisation as the source of layout diversity; probabilistic detection for small hash-ordered constructs (templates also use ≥5 entries)."),
+ "C09": dict(level="exploration", design="§3 C09",
+   technique="runtime monitoring: reference-model monitor (first-wins ordered dictionary) + model-free cross-accessor relations over generated literals run on the real interpreter",
+   text="Generated object and map literals (all key spellings and kinds, duplicates within and across ** operands, private names, sizes 0–12; 3.2 k quick, 100 k thorough) are evaluated and every accessor of the statement is compared with the model; len/keys/values/items/A agreement and m[keys[i]] == values[i] are checked on the real values.",
+   note="Trusted: the ordered-dictionary model; NaN/-0.0 keys and ** operands written before literal pairs are not generated."),
+ "C12": dict(level="exploration", design="§3 C12",
+   technique="runtime monitoring: consistency monitor over executions of every conditional construct, with truth(v) read from the interpreter's own `v.B` and Go pointer identity for 'returns the deciding operand itself'",
+   text="Every pool value (≈145 incl. prototypes, descendants and objects with user-defined B) is used as the condition of 19 constructs with marker-printing operands; markers give exactly-one-branch and at-most-once/only-if-needed evaluation, pointer identity gives the deciding operand; built-in data values are checked against the zero-value table. Exhaustive over pool × constructs.",
+   note="Trusted: `v.B` as the definition of truth (per the statement); the pool is fixed."),
+ "C15": dict(level="fault_enumeration", design="§3 C15",
+   technique="runtime monitoring: exhaustive exit placement with a reference-model monitor (defer model) over stdout marker traces and outcomes of the real interpreter",
+   text="All bodies of n ≤ 3 (quick) / n ≤ 4 (thorough) statements over {marker, defer, guarded defers, raising defer, nested call with its own defers}, with every exit kind injected at every statement index, in five calling contexts (≈34 k programs quick) are run on the real interpreter and compared with the statement's defer model (marker sequence + value/error). Exhaustive for the stated alphabet and bound.",
+   note="Trusted: the defer model transcribed from the statement; bodies end with an explicit value."),
 }
 
 ALL = ["C%02d" % i for i in range(1, 21)]
